@@ -935,6 +935,13 @@ RESPELLED_CLAUSES = [
     'update t set a = 1 where b = 2',
     'select a from t natural\tjoin u full\touter\tjoin w on 1 = 1 except select 3 from x group   by y',
 ]
+# row lists in comma-first layout (several whitespace characters in front of a separating comma)
+COMMA_FIRST_ROWS = [
+    'insert into t (a, b) values (1, 2)\n  , (3, 4)\n  , (5, 6)',
+    'insert into t values (1)  ,  (2) \t, (3);',
+    'select a\n     , b\n     , c from t',
+    'select f(a \n , b  ,  c) from t where x in (1 , 2\n,3)',
+]
 
 
 def cases_C10(tier='quick', seed=0):
@@ -948,6 +955,10 @@ def cases_C10(tier='quick', seed=0):
         yield (t, so)
         yield (t, ri)
     # clause keywords of several words spelled with a tab, a line break or several blanks between the words
+    for t in COMMA_FIRST_ROWS:
+        yield (t, sw)
+        yield (t, ri)
+        yield (t, so)
     for t in RESPELLED_CLAUSES:
         yield (t, ri)
         for c in combos[:6]:
